@@ -11,6 +11,7 @@ use crate::{utils, Metainfo};
 use std::fs;
 use std::fs::File;
 use std::io::{BufReader, BufWriter, Read, Seek, Write};
+use std::path::{Component, Path};
 use tokio::sync::mpsc;
 
 pub struct Extractor {
@@ -36,7 +37,14 @@ impl Extractor {
     }
 
     fn extract_files(&self) -> Result<(), Box<dyn std::error::Error>> {
-        for (path, start, end) in self.metainfo.file_piece_ranges().iter() {
+        let ranges = self.metainfo.file_piece_ranges();
+
+        // Refuse names/paths which could point outside of current directory
+        if let Some((path, _, _)) = ranges.iter().find(|(path, _, _)| !Self::is_safe(path)) {
+            return Err(format!("Unsafe file path: {}", path.display()).into());
+        }
+
+        for (path, start, end) in ranges.iter() {
             // Create directories if needed
             if let Some(parent) = path.parent() {
                 fs::create_dir_all(parent)?;
@@ -78,5 +86,10 @@ impl Extractor {
         }
 
         Ok(())
+    }
+
+    fn is_safe(path: &Path) -> bool {
+        path.components()
+            .all(|c| matches!(c, Component::Normal(_) | Component::CurDir))
     }
 }
